@@ -45,6 +45,8 @@ SHAPE_USERS = {
     "retryable": ("C10",),
     "forwarders": ("C16",),
     "features": ("C18",),
+    "pin_dd": ("C14", "C15"),
+    "pin_metrics": ("C20",),
 }
 
 
